@@ -712,7 +712,7 @@ def work(args):
     name, scn, bound, cap = args
     out = dict(name=name, n=0, hist=collections.Counter(), fails=[], mismatches=[], truncated=False, infra=None)
     drv = _W.get("drv")
-    for attempt in (0, 1):
+    for attempt in (0, 1, 2):
         try:
             def on_exec(ex, choices):
                 check_execution(scn, ex, choices, drv, out)
@@ -723,11 +723,12 @@ def work(args):
             out["infra"] = str(e)
             break
         except Exception:
-            # an exception of the harness itself (never of klongpy: those are results). Retry the
-            # scenario once from scratch; a second failure is an infrastructure error (exit 2).
+            # an exception of the harness itself (never of klongpy: those are results), including
+            # HarnessGlitch (a step lost in wall time). Retry the scenario from scratch, twice;
+            # a third failure is an infrastructure error (exit 2).
             import traceback
             tb = traceback.format_exc()[-1500:]
-            if attempt == 1:
+            if attempt == 2:
                 out["infra"] = "worker exception in scenario %s: %s" % (name, tb)
             else:
                 out = dict(name=name, n=0, hist=collections.Counter(), fails=[], mismatches=[], truncated=False,
